@@ -24,9 +24,27 @@ section
 variable {σ : Type} {cfg : Cfg} {ops : QOps} {good : List Event → Prop} {net : NetOps σ}
   {post : Nat → σ → σ × Option Err} {P : List Event → σ → Prop}
 
+/-- a second invariant `J`, which may look at the core (the iteration counter): kept by the events
+    of a period, insensitive to the scheduling flags, kept by a scheduler stage that does not raise,
+    and re-established by apply stage + hook + `iteration += 1` (where `P` may be used) -/
+structure KeepsJ (ops : QOps) (net : NetOps σ) (post : Nat → σ → σ × Option Err) (cfg : Cfg)
+    (sched apply : CoreG σ → σ × Option Err) (P : List Event → σ → Prop) (J : CoreG σ → Prop) : Prop where
+  events : ∀ g g1, eventsStageG ops net cfg g = (g1, none) → J g → J g1
+  flags : ∀ (g : CoreG σ) (c : Core), c.iter = g.core.iter → J g → J { core := c, net := g.net }
+  sched : ∀ g n1, sched g = (n1, none) → J g → J { core := g.core, net := n1 }
+  finish : ∀ g n1 n2, P g.core.eventHist g.net → apply g = (n1, none) → post g.core.iter n1 = (n2, none) →
+    J g → J { core := advance g.core, net := n2 }
+
+theorem KeepsJ.trivial (ops : QOps) (net : NetOps σ) (post : Nat → σ → σ × Option Err) (cfg : Cfg)
+    (sched apply : CoreG σ → σ × Option Err) (P : List Event → σ → Prop) :
+    KeepsJ ops net post cfg sched apply P (fun _ => True) :=
+  ⟨fun _ _ _ _ => True.intro, fun _ _ _ _ => True.intro, fun _ _ _ _ => True.intro,
+   fun _ _ _ _ _ _ _ => True.intro⟩
+
 theorem finishGM_ok (hnet : NoFailH net post cfg P) {apply : CoreG σ → σ × Option Err}
     (ha : KeepsP P apply) (g : CoreG σ) (hN : P g.core.eventHist g.net) :
-    (∃ n2, finishGM apply post g = ({ core := advance g.core, net := n2 }, none) ∧
+    (∃ n1 n2, apply g = (n1, none) ∧ post g.core.iter n1 = (n2, none) ∧
+        finishGM apply post g = ({ core := advance g.core, net := n2 }, none) ∧
         P g.core.eventHist n2) ∨
     (∃ n1 e, finishGM apply post g = ({ g with net := n1 }, some e) ∧ P g.core.eventHist n1 ∧
         RaisedBy apply e) := by
@@ -36,8 +54,8 @@ theorem finishGM_ok (hnet : NoFailH net post cfg P) {apply : CoreG σ → σ × 
   · rw [hap] at hk
     obtain ⟨hpf, hpp⟩ := hnet.post g.core.eventHist g.core.iter n1 hk
     left
-    refine ⟨(post g.core.iter n1).1, ?_, hpp⟩
     have : post g.core.iter n1 = ((post g.core.iter n1).1, none) := Prod.ext rfl hpf
+    refine ⟨n1, (post g.core.iter n1).1, rfl, this, ?_, hpp⟩
     simp only []
     rw [this]
   · rw [hap] at hk
@@ -46,14 +64,16 @@ theorem finishGM_ok (hnet : NoFailH net post cfg P) {apply : CoreG σ → σ × 
 
 theorem bodyGM_ok (hq : ValidQ cfg) (hops : ops.Ok good) (hnet : NoFailH net post cfg P)
     {sched apply : CoreG σ → σ × Option Err} (hs : KeepsP P sched) (ha : KeepsP P apply)
+    {J : CoreG σ → Prop} (hJ : KeepsJ ops net post cfg sched apply P J)
     {t : Nat} {g : CoreG σ} (hI : InvG cfg t g.core) (hG : good g.core.pending)
-    (hN : P g.core.eventHist g.net) :
+    (hN : P g.core.eventHist g.net) (hJg : J g) :
     (∃ g', bodyGM ops net post cfg sched apply g = (g', none) ∧ InvG cfg (t + 1) g'.core ∧
-      good g'.core.pending ∧ P g'.core.eventHist g'.net) ∨
+      good g'.core.pending ∧ P g'.core.eventHist g'.net ∧ J g') ∨
     (∃ g' e, bodyGM ops net post cfg sched apply g = (g', some e) ∧ P g'.core.eventHist g'.net ∧
       g'.core.iter = t ∧ (RaisedBy sched e ∨ RaisedBy apply e)) := by
   have hv' := valid_relabel hq
   obtain ⟨g1, h1, hit, hH, hP, hE, hG1, hN1⟩ := eventsStageG_okH hq hops hnet hI hG hN
+  have hJ1 : J g1 := hJ.events g g1 h1 hJg
   have key : ∀ c2 : Core, c2.iter = t + 1 → c2.pending = g1.core.pending →
       c2.resolve = false → c2.eventHist = g1.core.eventHist → c2.evHist = g1.core.evHist →
       InvG cfg (t + 1) c2 := by
@@ -74,14 +94,18 @@ theorem bodyGM_ok (hq : ValidQ cfg) (hops : ops.Ok good) (hnet : NoFailH net pos
   by_cases hns : needsSched cfg.maxRecompute g1.core = true
   · simp only [hns, if_true]
     have hk := hs { g1 with core := markInvoked g1.core } hN1
+    have hJa : J { core := markInvoked g1.core, net := g1.net } := hJ.flags g1 _ rfl hJ1
     rcases hsc : sched { g1 with core := markInvoked g1.core } with ⟨n1, _ | e⟩
     · rw [hsc] at hk
       simp only
+      have hJb : J { core := markScheduled (markInvoked g1.core), net := n1 } :=
+        hJ.flags { core := markInvoked g1.core, net := n1 } _ rfl (hJ.sched _ n1 hsc hJa)
       rcases finishGM_ok hnet ha { core := markScheduled (markInvoked g1.core), net := n1 } hk with
-        ⟨n2, hf, hp2⟩ | ⟨n2, e, hf, hp2, hr⟩
+        ⟨m1, n2, hap, hpo, hf, hp2⟩ | ⟨n2, e, hf, hp2, hr⟩
       · left
         rw [hf]
-        exact ⟨_, rfl, key _ (by simp [advance, markScheduled, markInvoked, hit]) rfl rfl rfl rfl, hG1, hp2⟩
+        exact ⟨_, rfl, key _ (by simp [advance, markScheduled, markInvoked, hit]) rfl rfl rfl rfl, hG1, hp2,
+          hJ.finish _ m1 n2 hk hap hpo hJb⟩
       · right
         rw [hf]
         exact ⟨_, e, rfl, hp2, by simp [markScheduled, markInvoked, hit], Or.inr hr⟩
@@ -89,11 +113,12 @@ theorem bodyGM_ok (hq : ValidQ cfg) (hops : ops.Ok good) (hnet : NoFailH net pos
       right
       exact ⟨_, e, rfl, hk, by simp [markInvoked, hit], Or.inl ⟨_, by rw [hsc]⟩⟩
   · simp only [hns]
-    rcases finishGM_ok hnet ha g1 hN1 with ⟨n2, hf, hp2⟩ | ⟨n2, e, hf, hp2, hr⟩
+    rcases finishGM_ok hnet ha g1 hN1 with ⟨m1, n2, hap, hpo, hf, hp2⟩ | ⟨n2, e, hf, hp2, hr⟩
     · left
       simp only [Bool.false_eq_true, if_false]
       rw [hf]
-      refine ⟨_, rfl, key _ (by simp [advance, hit]) rfl ?_ rfl rfl, hG1, hp2⟩
+      refine ⟨_, rfl, key _ (by simp [advance, hit]) rfl ?_ rfl rfl, hG1, hp2,
+        hJ.finish _ m1 n2 hN1 hap hpo hJ1⟩
       simp only [needsSched, Bool.or_eq_true, not_or, Bool.not_eq_true] at hns
       simpa [advance] using hns.1
     · right
@@ -101,20 +126,21 @@ theorem bodyGM_ok (hq : ValidQ cfg) (hops : ops.Ok good) (hnet : NoFailH net pos
       rw [hf]
       exact ⟨_, e, rfl, hp2, hit, Or.inr hr⟩
 
-theorem runGM_spec (hq : ValidQ cfg) (hops : ops.Ok good) (hnet : NoFailH net post cfg P)
-    {sched apply : CoreG σ → σ × Option Err} (hs : KeepsP P sched) (ha : KeepsP P apply) :
+theorem runGM_specJ (hq : ValidQ cfg) (hops : ops.Ok good) (hnet : NoFailH net post cfg P)
+    {sched apply : CoreG σ → σ × Option Err} (hs : KeepsP P sched) (ha : KeepsP P apply)
+    {J : CoreG σ → Prop} (hJ : KeepsJ ops net post cfg sched apply P J) :
     ∀ (n t : Nat) (g : CoreG σ), InvG cfg t g.core → good g.core.pending → P g.core.eventHist g.net →
-    t ≤ horizon cfg →
+    J g → t ≤ horizon cfg →
     ∃ g' r, runGM ops net post cfg sched apply n g = (g', r) ∧ P g'.core.eventHist g'.net ∧
-      (r = none → InvG cfg (min (t + n) (horizon cfg)) g'.core) ∧
+      (r = none → InvG cfg (min (t + n) (horizon cfg)) g'.core ∧ J g') ∧
       (∀ e, r = some e → g'.core.iter < min (t + n) (horizon cfg) ∧ (RaisedBy sched e ∨ RaisedBy apply e)) := by
   intro n
   induction n with
   | zero =>
-    intro t g hI _ hN ht
-    exact ⟨g, none, rfl, hN, fun _ => by simpa [Nat.min_eq_left ht] using hI, fun e he => by cases he⟩
+    intro t g hI _ hN hJg ht
+    exact ⟨g, none, rfl, hN, fun _ => ⟨by simpa [Nat.min_eq_left ht] using hI, hJg⟩, fun e he => by cases he⟩
   | succ n ih =>
-    intro t g hI hG hN ht
+    intro t g hI hG hN hJg ht
     rcases Nat.lt_or_ge t (horizon cfg) with hlt | hge
     · have hp := (pendingG_ne_nil_iff hq hI).2 hlt
       have hg : guard g.core = true := by
@@ -122,8 +148,9 @@ theorem runGM_spec (hq : ValidQ cfg) (hops : ops.Ok good) (hnet : NoFailH net po
         cases hpe : g.core.pending with
         | nil => exact absurd hpe hp
         | cons a l => simp
-      rcases bodyGM_ok hq hops hnet hs ha hI hG hN with ⟨g1, hb, hI1, hG1, hN1⟩ | ⟨g1, e, hb, hN1, hit, hr⟩
-      · obtain ⟨g', r, hr, hN', hI', hE'⟩ := ih (t + 1) g1 hI1 hG1 hN1 hlt
+      rcases bodyGM_ok hq hops hnet hs ha hJ hI hG hN hJg with
+        ⟨g1, hb, hI1, hG1, hN1, hJ1⟩ | ⟨g1, e, hb, hN1, hit, hr⟩
+      · obtain ⟨g', r, hr, hN', hI', hE'⟩ := ih (t + 1) g1 hI1 hG1 hN1 hJ1 hlt
         have hadd : t + 1 + n = t + (n + 1) := by omega
         refine ⟨g', r, ?_, hN', by rwa [← hadd], by rwa [← hadd]⟩
         simp only [runGM, hg, if_true, hb]
@@ -138,9 +165,21 @@ theorem runGM_spec (hq : ValidQ cfg) (hops : ops.Ok good) (hnet : NoFailH net po
         by_contra h
         exact absurd ((pendingG_ne_nil_iff hq hI).1 h) (by omega)
       have hg : guard g.core = false := by simp [guard, hp, hI.resolve]
-      refine ⟨g, none, by simp [runGM, hg], hN, fun _ => ?_, fun e he => by cases he⟩
+      refine ⟨g, none, by simp [runGM, hg], hN, fun _ => ⟨?_, hJg⟩, fun e he => by cases he⟩
       rw [Nat.min_eq_right (by omega)]
       exact hte ▸ hI
+
+theorem runGM_spec (hq : ValidQ cfg) (hops : ops.Ok good) (hnet : NoFailH net post cfg P)
+    {sched apply : CoreG σ → σ × Option Err} (hs : KeepsP P sched) (ha : KeepsP P apply) :
+    ∀ (n t : Nat) (g : CoreG σ), InvG cfg t g.core → good g.core.pending → P g.core.eventHist g.net →
+    t ≤ horizon cfg →
+    ∃ g' r, runGM ops net post cfg sched apply n g = (g', r) ∧ P g'.core.eventHist g'.net ∧
+      (r = none → InvG cfg (min (t + n) (horizon cfg)) g'.core) ∧
+      (∀ e, r = some e → g'.core.iter < min (t + n) (horizon cfg) ∧ (RaisedBy sched e ∨ RaisedBy apply e)) := by
+  intro n t g hI hG hN ht
+  obtain ⟨g', r, h1, h2, h3, h4⟩ := runGM_specJ hq hops hnet hs ha
+    (KeepsJ.trivial ops net post cfg sched apply P) n t g hI hG hN True.intro ht
+  exact ⟨g', r, h1, h2, fun h => (h3 h).1, h4⟩
 
 end
 end Acn.EventCore
